@@ -133,6 +133,11 @@ let run (toks : string list) : string =
        | M.Ok st -> show_state st ^ " " ^ show_gen_values st
        | M.Err -> "err"
        | M.Panic -> "panic")
+  | ["dec2047"; v] ->
+      (* C10: mime.WordDecoder.DecodeHeader in Gallina *)
+      (match M.decode_header (bytes_of_hex v) with
+       | Some d -> "ok " ^ hex_of_bytes d
+       | None -> "err")
   | ["fname"; name] ->
       (* C10 tier B: Writer.file_hdrs (sanitize, word encoder Q = 113, header cache of a fresh file)
          -> Content-Disposition -> parser; the Content-Type guess is irrelevant to the name *)
